@@ -1495,6 +1495,13 @@ func main() {
 		}
 	}
 
+	memLimit := uint64(1536) << 20
+	if s := os.Getenv("VERIF_CASE_MEM_MB"); s != "" {
+		if mb, err := strconv.Atoi(s); err == nil && mb > 0 {
+			memLimit = uint64(mb) << 20
+		}
+	}
+
 	in := bufio.NewReaderSize(os.Stdin, 1<<16)
 	out := &output{w: bufio.NewWriterSize(os.Stdout, 1<<16)}
 
@@ -1527,7 +1534,34 @@ func main() {
 					os.Exit(3)
 				})
 
+				// a second watchdog, on memory: a case whose live heap passes the limit is reported as "memory" and ends
+				// the process like a timeout (a parse that needs gigabytes would otherwise take the sandbox down with it)
+				memDone := make(chan struct{})
+				go func() {
+					tk := time.NewTicker(50 * time.Millisecond)
+					defer tk.Stop()
+					for {
+						select {
+						case <-memDone:
+							return
+						case <-tk.C:
+							var ms runtime.MemStats
+							runtime.ReadMemStats(&ms)
+							if ms.HeapAlloc > memLimit {
+								out.mu.Lock()
+								if out.gen != myGen {
+									out.mu.Unlock()
+									return
+								}
+								out.emitLocked(&timeoutOut{ID: req.ID, Outcome: "memory"})
+								os.Exit(3)
+							}
+						}
+					}
+				}()
+
 				res := handle(req)
+				close(memDone)
 
 				out.mu.Lock()
 				out.gen++
